@@ -37,6 +37,9 @@ def build(desc):
         # priority workload: one traded price per update, several same-side orders behind the book (no queue ahead)
         mp = dict(MARKET, trade_levels=(1,), n_runners=(2, 2))
         sp.update(n_orders=(2, 5), sides=(rng.choice(("BACK", "LAY")),), modes=("rest", "far", "rest"), p_cancel=0.0, p_replace=0.0, sizes=(2.0, 5.0, 25.5, 100.0))
+    if desc["idx"] % 7 == 6:
+        # handicap market: one selection on several lines (each line has its own ladder and queue)
+        mp = dict(mp, handicaps="lines", n_runners=(2, 4))
     case, snaps = simgen.gen_case(desc["seed"], desc["idx"], market_params=mp, script_params=sp, n_strategies=(1, 1) if lone else (1, 3), salt=6)
     case["config"] = {"simulated_strategy_isolation": rng.random() < 0.7}
     return case, snaps
